@@ -1068,8 +1068,8 @@ class Walker(object):
                     if unify(im["self_ty"], self_ty, env):
                         ok = True
                         for pa, ca in zip(im["trait_args"][1:], targs[1:]):
-                            if pa[0] == "const" or ca[0] == "const":
-                                continue
+                            if pa[0] == "const" or ca[0] == "const" or ca[0] == "alias":
+                                continue      # an unevaluated associated-type projection: the Self type decides
                             if not unify(pa, ca, env):
                                 ok = False
                                 break
@@ -1461,6 +1461,12 @@ class Walker(object):
             target = clo
             if isinstance(clo, Ref):
                 target = self.load(st, clo.obj, clo.proj)
+            # `&mut F` / `&F` is itself callable (core::ops::function::impls forwards): follow the reference
+            hops = 0
+            while isinstance(target, Ref) and hops < 4:
+                clo = target
+                target = self.load(st, clo.obj, clo.proj)
+                hops += 1
             tup = args[1] if len(args) > 1 else UNIT
             spread = list(tup.fields) if isinstance(tup, Agg) else []
             if isinstance(target, Agg) and target.kind[0] == "closure":
